@@ -219,7 +219,7 @@ def run(ctx: Ctx):
     for cs in cases(ctx, 'c10', n_docs):
         doc_level(ctx, cs)
     ctx.extra['clef_classes_converted_by_tokenizer'] = dict(_pairs)
-    ctx.floors = {'notes': ('notes_compared', 1500)}
+    ctx.floors = {'notes': ('notes_compared', 800)}
     if ctx.shard is None or shard_i == 0:
         ctx.floors['grid'] = ('pitch_cases', 11025)
     uninstall_pair_recorder()
